@@ -44,6 +44,14 @@ func runC12(c *Ctx) {
 		"E: scenarios (pool 1–4 × relay mode × max-size × compression × cache) of 20–60 messages over 20 API methods from concurrent senders -> every Route* record vs the send log, every wire frame vs Frame.encode; non-trivial = message larger than one buffer, compressed, important, refused or cached-name; distinct by (kind,size class,options); " +
 		"H: valid frames of every kind mutated at the boundaries of the extracted guards -> class and fields of handleRecvQueue vs Frame.parse"
 	c12Stream(c)
+	for _, v := range c.R.Violations {
+		if v.Signature == "C12-reader-crash" {
+			// the live connections of part E run serve() in goroutines of this process: a reader that
+			// panics would take the harness down before it can report
+			c.R.Note("part E/H skipped: the link reader panics (see the C12-reader-crash replay)")
+			return
+		}
+	}
 	c12EndToEnd(c)
 	c12Handler(c)
 }
@@ -211,8 +219,15 @@ func c12Stream(c *Ctx) {
 			r.Disagree("c12-newconn", err.Error(), nil)
 			return
 		}
+		// sometimes the first bytes arrive as the handshake's left-over (`tail` argument of Join/serve)
+		var tail []byte
+		if len(chunks) > 1 && c.Rng.Chance(1, 3) {
+			tail = chunks[0]
+			chunks = chunks[1:]
+			r.Count("S:with-tail")
+		}
 		sc := &w5ScriptConn{chunks: chunks}
-		frames, pan := proto.VerifServe(conn, sc, nil)
+		frames, pan := proto.VerifServe(conn, sc, tail)
 		class := "closed"
 		if pan != nil {
 			class = "crash"
@@ -229,6 +244,10 @@ func c12Stream(c *Ctx) {
 		// the chunks as the reader saw them
 		var seen []string
 		pos := 0
+		if len(tail) > 0 {
+			seen = append(seen, hexs(tail))
+			pos = len(tail)
+		}
 		for _, s := range sc.sizes {
 			seen = append(seen, hexs(stream[pos:pos+s]))
 			pos += s
@@ -277,11 +296,11 @@ func c12Stream(c *Ctx) {
 		if i < 2 {
 			r.Sample(map[string]interface{}{"part": "S", "case": o.cs, "model": outs[i], "impl_frames": got, "impl_class": o.class})
 		}
+		if o.class == "crash" {
+			r.Violation("C12-reader-crash", "serve() panicked on a byte stream (unrecovered in production: the node dies and with it every delivery)", o.cs)
+		}
 		if got != w[1] || gclass != mclass {
 			r.Disagree("stream-read", fmt.Sprintf("model %q, implementation class=%s frames=%s", outs[i], o.class, got), o.cs)
-			if o.class == "crash" {
-				r.Violation("C12-reader-crash", "serve() panicked on a byte stream (unrecovered in production)", o.cs)
-			}
 			continue
 		}
 		// independent oracle: conservation and exactness
@@ -597,6 +616,37 @@ func c12Directed(c *Ctx) {
 // unbuffered channel; the request then fails with a time-out although the remote side executed it).
 func c12RequestRace(c *Ctx) {
 	r := c.R
+	from := gen.PID{Node: "a@w5", ID: 31337, Creation: 1001}
+	to := gen.PID{Node: "b@w5", ID: 6, Creation: 2002} // remote result: ErrProcessTerminated
+	al := gen.Alias{Node: "b@w5", ID: [3]uint64{5, 1, 2}, Creation: 2002} // ErrProcessMailboxFull
+	pn := gen.ProcessID{Node: "b@w5", Name: "abcd"}                        // name of length 4: ErrProcessUnknown
+	ev := gen.Event{Node: "b@w5", Name: "evnt"}
+	type req struct {
+		name string
+		call func(conn gen.Connection) error
+		want error
+	}
+	evErr := func(_ []gen.MessageEvent, e error) error { return e }
+	pidErr := func(_ gen.PID, e error) error { return e }
+	reqs := []req{
+		{"LinkPID", func(cn gen.Connection) error { return cn.LinkPID(from, to) }, w5Script(6)},
+		{"UnlinkPID", func(cn gen.Connection) error { return cn.UnlinkPID(from, to) }, w5Script(6)},
+		{"MonitorPID", func(cn gen.Connection) error { return cn.MonitorPID(from, to) }, w5Script(6)},
+		{"DemonitorPID", func(cn gen.Connection) error { return cn.DemonitorPID(from, to) }, w5Script(6)},
+		{"LinkProcessID", func(cn gen.Connection) error { return cn.LinkProcessID(from, pn) }, w5Script(4)},
+		{"UnlinkProcessID", func(cn gen.Connection) error { return cn.UnlinkProcessID(from, pn) }, w5Script(4)},
+		{"MonitorProcessID", func(cn gen.Connection) error { return cn.MonitorProcessID(from, pn) }, w5Script(4)},
+		{"DemonitorProcessID", func(cn gen.Connection) error { return cn.DemonitorProcessID(from, pn) }, w5Script(4)},
+		{"LinkAlias", func(cn gen.Connection) error { return cn.LinkAlias(from, al) }, w5Script(5)},
+		{"UnlinkAlias", func(cn gen.Connection) error { return cn.UnlinkAlias(from, al) }, w5Script(5)},
+		{"MonitorAlias", func(cn gen.Connection) error { return cn.MonitorAlias(from, al) }, w5Script(5)},
+		{"DemonitorAlias", func(cn gen.Connection) error { return cn.DemonitorAlias(from, al) }, w5Script(5)},
+		{"LinkEvent", func(cn gen.Connection) error { return evErr(cn.LinkEvent(from, ev)) }, w5Script(4)},
+		{"UnlinkEvent", func(cn gen.Connection) error { return cn.UnlinkEvent(from, ev) }, w5Script(4)},
+		{"MonitorEvent", func(cn gen.Connection) error { return evErr(cn.MonitorEvent(from, ev)) }, w5Script(4)},
+		{"DemonitorEvent", func(cn gen.Connection) error { return cn.DemonitorEvent(from, ev) }, w5Script(4)},
+		{"RemoteSpawn", func(cn gen.Connection) error { return pidErr(cn.RemoteSpawn("abcd", gen.ProcessOptionsExtra{})) }, w5Script(4)},
+	}
 	rng := c.Rng.Fork()
 	p, err := w5NewPair(rng, w5Opts{Pool: 1, RelayMode: 4, ImportantA: true, ImportantB: true})
 	if err != nil {
@@ -604,41 +654,49 @@ func c12RequestRace(c *Ctx) {
 		return
 	}
 	defer p.Close()
+	p.B.core.nameScript = func(n string) error { return w5Script(uint64(len(n))) }
 	var held int32
+	var before int64
 	lib.VerifHandler = func(obj any, label string) {
 		if label != "proto:waitResult" {
 			return
 		}
 		atomic.AddInt32(&held, 1)
 		// wait until the remote core has executed the request, then give the reply time to travel back
-		for i := 0; i < 4000 && p.B.core.Count() == 0; i++ {
+		for i := 0; i < 4000 && p.B.core.Count() == atomic.LoadInt64(&before); i++ {
 			time.Sleep(250 * time.Microsecond)
 		}
-		time.Sleep(30 * time.Millisecond)
+		time.Sleep(25 * time.Millisecond)
 	}
 	defer func() { lib.VerifHandler = nil }()
-	from := gen.PID{Node: "a@w5", ID: 31337, Creation: 1001}
-	to := gen.PID{Node: "b@w5", ID: 6, Creation: 2002} // remote result: ErrProcessTerminated
-	t0 := time.Now()
-	got := p.A.conn.MonitorPID(from, to)
-	d := time.Since(t0)
-	lib.VerifHandler = nil
-	r.Case("E|request-race", true)
-	r.Count("E:request-race")
-	cs := map[string]interface{}{"directed": "MonitorPID with the requester parked at proto:waitResult until the reply is back", "returned": errText(got), "took_ms": d.Milliseconds()}
-	if atomic.LoadInt32(&held) == 0 {
-		r.Disagree("request-race-hook", "yield point proto:waitResult was not reached", cs)
-		return
-	}
-	if errText(got) != errText(w5Script(to.ID)) {
-		sig := "C12-request-result"
-		if errors.Is(got, gen.ErrTimeout) {
-			sig = "C12-request-timeout"
+	timeouts := 0
+	for _, q := range reqs {
+		atomic.StoreInt64(&before, p.B.core.Count())
+		h0 := atomic.LoadInt32(&held)
+		t0 := time.Now()
+		got := q.call(p.A.conn)
+		d := time.Since(t0)
+		r.Case("E|request-race|"+q.name, true)
+		r.Count("E:request-race")
+		cs := map[string]interface{}{"directed": q.name + " with the requester parked at proto:waitResult until the reply is back", "returned": errText(got), "took_ms": d.Milliseconds()}
+		if atomic.LoadInt32(&held) == h0 {
+			r.Disagree("request-race-hook", "yield point proto:waitResult was not reached by "+q.name, cs)
+			continue
 		}
-		r.Violation(sig, fmt.Sprintf("MonitorPID returned %s after %v; the remote core executed it once and answered %s", errText(got), d, errText(w5Script(to.ID))), cs)
-	}
-	if n := p.B.core.Count(); n != 1 {
-		r.Violation("C12-delivery", fmt.Sprintf("request routed %d times", n), cs)
+		if errText(got) != errText(q.want) {
+			sig := "C12-request-result"
+			if errors.Is(got, gen.ErrTimeout) {
+				sig = "C12-request-timeout"
+				timeouts++
+			}
+			r.Violation(sig, fmt.Sprintf("%s returned %s after %v; the remote core executed it once and answered %s", q.name, errText(got), d, errText(q.want)), cs)
+		}
+		if n := p.B.core.Count() - atomic.LoadInt64(&before); n != 1 {
+			r.Violation("C12-delivery", fmt.Sprintf("%s routed %d times", q.name, n), cs)
+		}
+		if timeouts >= 2 {
+			break // each lost reply costs the 5 s request time-out
+		}
 	}
 }
 
